@@ -75,6 +75,10 @@ type Cfg struct {
 	Accts int      `json:"accts"`
 	Paths int      `json:"paths"`
 	Refs  int      `json:"refs"`
+	// Sparse: the description of all slots and storage paths is NOT logged after every step (that
+	// logging reads every resource through references, which can mask stale internal state); results
+	// of reference uses, events, the population read by the fresh script and the ledger are still compared.
+	Sparse bool `json:"sparse"`
 }
 
 type Beh struct {
@@ -425,7 +429,7 @@ func render(cfg Cfg, steps []Step) string {
 			break
 		}
 		t.step(s)
-		if s.Op != "abort" {
+		if s.Op != "abort" && !cfg.Sparse {
 			t.stateLog()
 		}
 	}
@@ -575,6 +579,9 @@ func replay(b *Beh, useVM bool) *Fail {
 			if c.Op == "useref" {
 				want = append(want, "use:"+strconv.Itoa(c.V))
 				wantSteps = append(wantSteps, c)
+			}
+			if b.Cfg.Sparse {
+				continue
 			}
 			want = append(want, strings.Join(c.St, "|"))
 			wantSteps = append(wantSteps, c)
